@@ -70,6 +70,10 @@ def gen_geom(rng):
             lo[j] = -1e20; hi[j] = 1e20
         elif u < 0.45:
             lo[j] = xb[j]; hi[j] = xb[j] + 1e-3 * Delta; nact += 1    # nearly degenerate side
+        elif u < 0.50:
+            lo[j] = xb[j]; hi[j] = xb[j]; nact += 1                   # exactly degenerate side (a fixed variable)
+            if rng.random() < 0.6:
+                g[j] = 0.0 if rng.random() < 0.5 else 1e-16 * rng.normal()
     nact += int(np.sum((xb - lo < Delta) | (hi - xb < Delta)))
     return xb, c, g, lo, hi, Delta, nact
 
